@@ -181,6 +181,11 @@ func ZZ_C08_OtherTools() {
 	F := 0
 	if l.faces > 0 {
 		F = 1 + zz.Choose("F", zz.Bound("F"))
+		if l.texcoord && l.faces == 34 && zz.Bound("F") < 2 {
+			// two list properties per face and lists of different lengths on consecutive lines: readers that keep
+			// per-property scratch state are only exercised by at least two faces
+			F = 1 + zz.Choose("F (two lists per face)", 2)
+		}
 	}
 	zz.Note("layout: " + l.name + " / " + formats[format])
 	body := []byte{}
